@@ -63,7 +63,13 @@ func (fr *frame) flushWF(front T) {
 		if elem == nil {
 			continue
 		}
-		if vc.heapRows[p[1]] {
+		if ks, isMap := vc.heapMapKey[p[1]]; isMap {
+			x := "(select " + p[0] + " wf_k)"
+			f := vc.typeFacts(x, elem, front, 0)
+			if f != tTrue {
+				vc.assume("(forall ((wf_k " + ks + ")) (! " + f + " :pattern (" + x + ")))")
+			}
+		} else if vc.heapRows[p[1]] {
 			x := "(select " + p[0] + " wf_i)"
 			f := vc.typeFacts(x, elem, front, 0)
 			if f != tTrue {
@@ -425,7 +431,7 @@ func (fr *frame) enterLoop(h *ssa.BasicBlock, edges []edgeState, ord int) (*Stat
 			}
 			li.frameIn = stIn.clone()
 			for _, k := range names {
-				if !(mod == nil || mod[k]) || vc.ghost[k] || except[k] || !strings.HasPrefix(vc.heapSort[k], "(Array Int") {
+				if !(mod == nil || mod[k]) || vc.ghost[k] || except[k] || k == "Hrng" || !strings.HasPrefix(vc.heapSort[k], "(Array Int") {
 					continue
 				}
 				li.frameHeaps = append(li.frameHeaps, k)
@@ -465,22 +471,26 @@ func (fr *frame) backEdge(h *ssa.BasicBlock, from *ssa.BasicBlock, st *State, g 
 	}
 	env := fr.loopEnv(h, backVals, st)
 	n := 0
+	be := "" // several back edges (continue, short-circuit conditions): one obligation per edge
+	if len(li.backSts) > 1 {
+		be = fmt.Sprintf(".b%d", len(li.backSts))
+	}
 	if con != nil {
 		for _, cl := range con.Clauses {
 			if cl.Loop == li.ord && cl.Kind == "loopinv" {
 				n++
-				vc.oblige("inv", fmt.Sprintf("loop%d.inv%d.preserve", li.ord, n), g, vc.evalGoal(cl.Expr, env))
+				vc.oblige("inv", fmt.Sprintf("loop%d.inv%d.preserve%s", li.ord, n, be), g, vc.evalGoal(cl.Expr, env))
 			}
 			if cl.Loop == li.ord && cl.Kind == "loopdec" && li.hasDec {
 				d := vc.evalSpec(cl.Expr, env).t
-				vc.oblige("inv", fmt.Sprintf("loop%d.decreases", li.ord), g, and(le("0", li.dec), lt(d, li.dec)))
+				vc.oblige("inv", fmt.Sprintf("loop%d.decreases%s", li.ord, be), g, and(le("0", li.dec), lt(d, li.dec)))
 			}
 		}
 	}
 	// loop frame: cells that existed at loop entry are unchanged at the back edge
 	for _, k := range li.frameHeaps {
 		sk := vc.fresh("lfr_"+k, "Int")
-		vc.oblige("inv", fmt.Sprintf("loop%d.frame.%s.preserve", li.ord, k), and(g, le("0", sk), lt(sk, "alloc@0")),
+		vc.oblige("inv", fmt.Sprintf("loop%d.frame.%s.preserve%s", li.ord, k, be), and(g, le("0", sk), lt(sk, "alloc@0")),
 			eq(sel(vc.heapGet(st, k), sk), sel(vc.heapGet(li.frameIn, k), sk)))
 	}
 	// record which heaps the body modified (for the discovery pass)
@@ -618,6 +628,44 @@ func (fr *frame) safe(kind string, cond T) {
 	n := vc.count(kind)
 	vc.oblige("safe", fmt.Sprintf("%s%d", kind, n), fr.g, cond)
 	fr.strengthen(cond)
+}
+
+// checkGuard: lock discipline. Taking the address of a guarded field (every read and write goes through
+// it) requires the struct's mutex to be held.
+func (fr *frame) checkGuard(x *ssa.FieldAddr, st types.Type, base *Loc, cur *State) {
+	vc := fr.vc
+	if len(vc.eng.guards) == 0 || (vc.con != nil && vc.con.Unguarded) {
+		return
+	}
+	nt, ok := types.Unalias(st).(*types.Named)
+	if !ok || nt.Obj().Pkg() == nil {
+		return
+	}
+	g := vc.eng.guards[nt.Obj().Pkg().Path()+"."+nt.Obj().Name()]
+	if g == nil {
+		return
+	}
+	su, ok := nt.Underlying().(*types.Struct)
+	if !ok {
+		return
+	}
+	fname := su.Field(x.Field).Name()
+	hit := false
+	for _, f := range g.Fields {
+		if f == fname {
+			hit = true
+		}
+	}
+	if !hit {
+		return
+	}
+	for i := 0; i < su.NumFields(); i++ {
+		if su.Field(i).Name() == g.Mutex {
+			ml := &Loc{Heap: base.Heap, Ref: base.Ref, Idx: base.Idx, Root: base.Root, Path: append(append([]pathElem{}, base.Path...), pathElem{Field: i, In: st})}
+			vc.oblige("safe", fmt.Sprintf("guarded%d.%s", vc.count("guarded"), fname), fr.g, eq(vc.loadLoc(cur, ml), "1"))
+			return
+		}
+	}
 }
 
 // strengthen conjoins c to the current path guard.
@@ -784,6 +832,7 @@ func (fr *frame) execValue(v ssa.Value, cur *State) SV {
 		fr.nonNil(p)
 		base := vc.locOf(p)
 		st := derefType(x.X.Type())
+		fr.checkGuard(x, st, base, cur)
 		nl := &Loc{Heap: base.Heap, Ref: base.Ref, Idx: base.Idx, Root: base.Root, Path: append(append([]pathElem{}, base.Path...), pathElem{Field: x.Field, In: st})}
 		return SV{t: "interior", typ: x.Type(), loc: nl}
 	case *ssa.Field:
@@ -877,9 +926,10 @@ func (fr *frame) execValue(v ssa.Value, cur *State) SV {
 		return fr.makeMap(x, cur)
 	case *ssa.Lookup:
 		return fr.lookup(x, cur)
-	case *ssa.Range, *ssa.Next:
-		vc.errorf("range over map/string is not supported in %s", funcKey(fr.fn))
-		return SV{t: "0", typ: x.Type()}
+	case *ssa.Range:
+		return fr.rangeOp(x, cur)
+	case *ssa.Next:
+		return fr.nextOp(x, cur)
 	}
 	vc.errorf("unsupported value %T in %s", v, funcKey(fr.fn))
 	return SV{t: vc.fresh("unsup", vc.sortOf(v.Type())), typ: v.Type()}
@@ -1153,7 +1203,8 @@ func (vc *VC) declBytesStr() {
 	vc.declRaw("fn:bytes2str", `(declare-fun bytes2str (Bytes) Str)
 (declare-fun str2bytes (Str) Bytes)
 (assert (forall ((b Bytes)) (! (and (= (str_len (bytes2str b)) (bytes_len b)) (=> (not (= b bytes_nil)) (= (str2bytes (bytes2str b)) b))) :pattern ((bytes2str b)))))
-(assert (forall ((s Str)) (! (and (= (bytes2str (str2bytes s)) s) (not (= (str2bytes s) bytes_nil))) :pattern ((str2bytes s)))))`)
+(assert (forall ((s Str)) (! (and (= (bytes2str (str2bytes s)) s) (not (= (str2bytes s) bytes_nil))) :pattern ((str2bytes s)))))
+(assert (forall ((a Bytes) (b Bytes)) (! (= (str_lt (bytes2str a) (bytes2str b)) (bytes_lt a b)) :pattern ((bytes_lt a b)) :pattern ((str_lt (bytes2str a) (bytes2str b))))))`)
 }
 
 func (fr *frame) typeAssert(x *ssa.TypeAssert) SV {
